@@ -17,6 +17,7 @@ EXPLANATION = (
     "decrypt_message never write it (keys can rotate back to old_keys: a reset would repeat a (key, counter) prefix). R3: a "
     "retransmission is the stored packet (byte-identical) and re-keying re-encrypts every replayed request. R4: WHOAREYOU "
     "id-nonces and random packets take their nonce/body from the RNG only.")
+EXPLANATION += (' Added while testing: R1 also requires the random handshake nonce never to be written into before use; R2 also treats mem::replace / swap / take of a whole Session as a write of the counter.')
 NOT_DECIDED = ["uniqueness of the random parts (probabilistic)", "u32 counter wrap after 2^32 messages in one session (debug builds panic, release wraps)"]
 TRUSTED = ["rand::random / Rng::try_fill produce fresh random bytes", "copy_from_slice writes exactly the indexed sub-slice"]
 
